@@ -112,7 +112,7 @@ Definition gstep (g : ghost) (o : op) : option ghost :=
     | None => None
     end
   | ORestack c w => if is_restack c && gusable g (idx w) then Some g else None
-  | OShow w | OHide w | OFocus w | OSteal w _ | OExpose w | OGetRoot w | OBind w _ _ _ _ =>
+  | OShow w | OHide w | OFocus w | OSteal w _ | OExpose w | OGetRoot w | OBind w _ _ _ _ _ | OUnbind w _ | OGeom w =>
     if gusable g (idx w) then Some g else None
   | OFlush w => if Nat.eqb (idx w) O && gusable g O then Some g else None
   | OKey | OMouse _ | ONop => Some g
